@@ -34,11 +34,11 @@ Proof. vm_compute. split; reflexivity. Qed.
 
 (* the analysis is not vacuous: dropping the NULL initialisation of a per-component array, or a release, is rejected *)
 Definition broken1 : prog :=
-  {| p_name := 99; p_body := [I (BDecl 0 false); I BThrow; Loop false [BAcquire 0]]; p_bail := [Loop true [BRelease 0]]; p_escape := []; p_owned := [] |}.
+  {| p_name := 99; p_body := [I (BDecl 0 false); I BThrow; Loop false [BAcquire 0]]; p_bail := [Loop true [BRelease 0]]; p_escape := []; p_owned := []; p_destroys := false |}.
 Definition broken2 : prog :=
-  {| p_name := 98; p_body := [I (BDecl 0 true); I (BDecl 1 true); I (BAcquire 0); I (BAcquire 1)]; p_bail := [I (BRelease 0)]; p_escape := []; p_owned := [] |}.
+  {| p_name := 98; p_body := [I (BDecl 0 true); I (BDecl 1 true); I (BAcquire 0); I (BAcquire 1)]; p_bail := [I (BRelease 0)]; p_escape := []; p_owned := []; p_destroys := false |}.
 Definition broken3 : prog :=
-  {| p_name := 97; p_body := [I (BDecl 0 true); I (BAcquire 0); I BCall; I BSetjmp]; p_bail := [I (BRelease 0); I (BRelease 0)]; p_escape := []; p_owned := [] |}.
+  {| p_name := 97; p_body := [I (BDecl 0 true); I (BAcquire 0); I BCall; I BSetjmp]; p_bail := [I (BRelease 0); I (BRelease 0)]; p_escape := []; p_owned := []; p_destroys := false |}.
 Lemma broken_rejected : check broken1 = false /\ check broken2 = false /\ check broken3 = false.
 Proof. vm_compute. repeat split; reflexivity. Qed.
 
